@@ -69,9 +69,26 @@ pub fn entry(max: u32, allow_unsupported: bool) -> BoxedStrategy<EntrySpec> {
         junk(40),
         prop_oneof![5 => Just(None), 1 => "[a-z]{0,12}".prop_map(Some)],
         prop_oneof![3 => Just(0u16), 1 => Just(2u16), 1 => Just(4u16), 1 => Just(6u16)],
+        prop_oneof![3 => Just(0u8), 1 => any::<u8>()],
     );
     (head, tail)
-        .prop_map(|((nb, method, content, dos_time, dos_date, made_by, external_attr, internal_attr), (comment, ceb, cea, le, zip64, local_zip64, desc, gap, local_name, flags_extra))| {
+        .prop_map(|((nb, method, content, dos_time, dos_date, made_by, external_attr, internal_attr), (comment, mut ceb, mut cea, mut le, zip64, local_zip64, desc, gap, local_name, flags_extra, wk))| {
+            // well-formed records of widely used third-party extensions, with valid contents: a reader
+            // that starts to interpret one of them must not change what the property pins down (name and
+            // comment decoded from the header fields by the flagged encoding, DOS timestamp, mode)
+            if wk != 0 {
+                let recs = well_known_extras(&nb.0, &comment, wk);
+                for (k, r) in recs.into_iter().enumerate() {
+                    match (wk as usize + k) % 3 {
+                        0 => ceb.push(r),
+                        1 => {
+                            cea.push(r.clone());
+                            le.push(r);
+                        }
+                        _ => le.push(r),
+                    }
+                }
+            }
             let raw_payload = if matches!(method, 0 | 8 | 12 | 93) { None } else { Some(Content::Rand { seed: content.len() as u64 * 31 + 7, len: (content.len() as u32 / 2 + 3).min(5000) }) };
             EntrySpec {
                 name: nb.0,
@@ -100,6 +117,55 @@ pub fn entry(max: u32, allow_unsupported: bool) -> BoxedStrategy<EntrySpec> {
             }
         })
         .boxed()
+}
+
+/// Info-ZIP Unicode Path (0x7075) / Unicode Comment (0x6375) with a matching CRC of the header field
+/// and a DIFFERENT UTF-8 text, extended timestamp (0x5455), Unix uid/gid (0x7875), NTFS times (0x000a),
+/// old Info-ZIP Unix (0x5855): `sel` picks which ones.
+pub fn well_known_extras(name: &[u8], comment: &[u8], sel: u8) -> Vec<Extra> {
+    let crc = crate::refzip::crypto::crc32;
+    let mut v = Vec::new();
+    if sel & 1 != 0 {
+        let mut d = vec![1u8];
+        d.extend_from_slice(&crc(name).to_le_bytes());
+        d.extend_from_slice("ünïcödé/päth-\u{6f22}.txt".as_bytes());
+        v.push(Extra { id: 0x7075, data: d });
+    }
+    if sel & 2 != 0 {
+        let mut d = vec![1u8];
+        d.extend_from_slice(&crc(comment).to_le_bytes());
+        d.extend_from_slice("ünïcödé cömment".as_bytes());
+        v.push(Extra { id: 0x6375, data: d });
+    }
+    if sel & 4 != 0 {
+        // flags: mtime+atime+ctime present; central copies usually carry mtime only - both are legal
+        let mut d = vec![7u8];
+        for t in [1_000_000_000u32, 1_100_000_000, 1_200_000_000] {
+            d.extend_from_slice(&t.to_le_bytes());
+        }
+        v.push(Extra { id: 0x5455, data: d });
+    }
+    if sel & 8 != 0 {
+        v.push(Extra { id: 0x7875, data: vec![1, 4, 0xe8, 3, 0, 0, 4, 0xe8, 3, 0, 0] });
+    }
+    if sel & 16 != 0 {
+        let mut d = vec![0u8; 4];
+        d.extend_from_slice(&1u16.to_le_bytes());
+        d.extend_from_slice(&24u16.to_le_bytes());
+        for t in [132_000_000_000_000_000u64, 132_100_000_000_000_000, 132_200_000_000_000_000] {
+            d.extend_from_slice(&t.to_le_bytes());
+        }
+        v.push(Extra { id: 0x000a, data: d });
+    }
+    if sel & 32 != 0 {
+        let mut d = Vec::new();
+        d.extend_from_slice(&1_000_000_000u32.to_le_bytes());
+        d.extend_from_slice(&1_000_000_001u32.to_le_bytes());
+        d.extend_from_slice(&1000u16.to_le_bytes());
+        d.extend_from_slice(&1000u16.to_le_bytes());
+        v.push(Extra { id: 0x5855, data: d });
+    }
+    v
 }
 
 pub fn archive(max_entries: usize, max_content: u32, allow_unsupported: bool) -> BoxedStrategy<ArchiveSpec> {
